@@ -9,6 +9,7 @@ import (
 	"github.com/Syuparn/pangaea/evaluator"
 	"github.com/Syuparn/pangaea/object"
 	"github.com/Syuparn/pangaea/parser"
+	"github.com/Syuparn/pangaea/props"
 	rt "github.com/Syuparn/pangaea/zzverifrt"
 )
 
@@ -43,7 +44,16 @@ func init() {
 	rt.Register("H_C11_arr", H_C11_arr)
 	rt.Register("H_C11_str", H_C11_str)
 	rt.Register("H_C11_idx", H_C11_idx)
+	rt.Register("H_C10_bin", H_C10_bin)
+	rt.Register("H_C10_neg", H_C10_neg)
+	rt.Register("H_C10_pow", H_C10_pow)
+	rt.Register("H_C10_pow_pool", H_C10_pow_pool)
 }
+
+func H_C10_bin() { props.VH_C10_bin(rt.Param(0)) }
+func H_C10_neg() { props.VH_C10_neg() }
+func H_C10_pow() { props.VH_C10_pow(rt.Param(0)) }
+func H_C10_pow_pool() { props.VH_C10_pow_pool(rt.Param(0)) }
 
 func H_C11_arr() { evaluator.VH_C11_arr(rt.Param(0)) }
 func H_C11_str() { evaluator.VH_C11_str(rt.Param(0), rt.Param(1)) }
